@@ -120,6 +120,35 @@ func main() {
 				c = genC10(r, idx, *tier)
 			}
 			runC10(e, idx, c)
+		case "C14", "C15", "C15solve":
+			var c *SolveCase
+			if desc != "" {
+				c = &SolveCase{}
+				mustJSON(desc, c)
+				c.P.norm()
+			} else if *prop == "C14" {
+				c = genC14(r, idx, *tier)
+			} else {
+				c = genC15(r, idx, *tier)
+			}
+			switch *prop {
+			case "C14":
+				runC14(e, idx, c)
+			case "C15":
+				runC15(e, idx, c)
+			default:
+				runSolve(e, idx, c, false)
+			}
+		case "C14opt":
+			var c *OptCase
+			if desc != "" {
+				c = &OptCase{}
+				mustJSON(desc, c)
+				c.norm()
+			} else {
+				c = genC14opt(r, idx, *tier)
+			}
+			runC03(e, idx, c)
 		default:
 			fmt.Fprintln(os.Stderr, "unknown property", *prop)
 			os.Exit(2)
